@@ -18,6 +18,7 @@ package shmipc
 
 import (
 	"bufio"
+	"encoding/json"
 	"fmt"
 	"io"
 	"net"
@@ -43,15 +44,16 @@ type c12Case struct {
 	Kind string `json:"kind"`
 	Name string `json:"name"`
 	// codec
-	Ver   int   `json:"ver"`
-	Ty    int   `json:"ty"`
-	Q     []int `json:"q"`
-	B     []int `json:"b"`
-	Bytes []int `json:"bytes"`
-	Body  []int `json:"body"`
-	Panic bool  `json:"panic"`
-	ExtB  []int `json:"ext_b"`
-	ExtQ  []int `json:"ext_q"`
+	Ver    int   `json:"ver"`
+	Ty     int   `json:"ty"`
+	Q      []int `json:"q"`
+	B      []int `json:"b"`
+	Bytes  []int `json:"bytes"`
+	Body   []int `json:"body"`
+	Panic  bool  `json:"panic"`
+	ExtErr bool  `json:"ext_err"`
+	ExtB   []int `json:"ext_b"`
+	ExtQ   []int `json:"ext_q"`
 	// peer / pair
 	Client   bool           `json:"client"`
 	MT       int            `json:"mt"`
@@ -216,19 +218,27 @@ type c12Send struct {
 // the scripted peer: [first] = it speaks first (a fake client); otherwise it answers (a fake server).
 // Returns the frames the real end wrote.  When hold is non-nil the peer stays silent with the socket
 // open until hold is closed.
-func c12FakePeer(c *net.UnixConn, speaksFirst bool, script []c12Send, closeAfter bool, hold chan struct{}, done chan []c12Frame) {
+func c12FakePeer(c *net.UnixConn, speaksFirst bool, script []c12Send, expect int, closeAfter bool, hold chan struct{}, done chan []c12Frame) {
 	var got []c12Frame
-	rd := func(d time.Duration) bool {
-		fr, closed := c12ReadFrame(c, d)
-		if fr != nil {
-			got = append(got, *fr)
-		}
-		return !closed
-	}
 	alive := true
+	// wait for the next frame the protocol makes the real end write (generous: the machine may be loaded)
+	want := func() {
+		end := time.Now().Add(8 * time.Second)
+		for alive && len(got) < expect && time.Now().Before(end) {
+			before := len(got)
+			fr, closed := c12ReadFrame(c, 250*time.Millisecond)
+			if fr != nil {
+				got = append(got, *fr)
+			}
+			alive = !closed
+			if len(got) > before {
+				return
+			}
+		}
+	}
 	for _, s := range script {
-		if !speaksFirst && alive {
-			alive = rd(400 * time.Millisecond)
+		if !speaksFirst {
+			want()
 		}
 		if s.delay > 0 {
 			time.Sleep(s.delay)
@@ -238,16 +248,23 @@ func c12FakePeer(c *net.UnixConn, speaksFirst bool, script []c12Send, closeAfter
 		} else {
 			c.WriteMsgUnix([]byte{0}, syscall.UnixRights(s.fds...), nil)
 		}
-		if speaksFirst && alive {
-			alive = rd(300 * time.Millisecond)
+		if speaksFirst {
+			want()
 		}
 	}
-	// collect what the real end still writes
-	for i := 0; i < 3 && alive; i++ {
-		before := len(got)
-		alive = rd(250 * time.Millisecond)
-		if len(got) == before {
+	for alive && len(got) < expect {
+		n := len(got)
+		want()
+		if len(got) == n {
 			break
+		}
+	}
+	// anything beyond what the protocol allows?
+	if alive {
+		if fr, closed := c12ReadFrame(c, 150*time.Millisecond); fr != nil {
+			got = append(got, *fr)
+		} else if closed {
+			alive = false
 		}
 	}
 	if closeAfter {
@@ -365,15 +382,15 @@ func c12WaitGone(id int, d time.Duration) {
 }
 
 // ---- codec ----------------------------------------------------------------------------------
-func c12Extract(body []byte) (b, q string, panicked bool) {
+func c12Extract(body []byte) (b, q string, failed, panicked bool) {
 	defer func() {
 		if r := recover(); r != nil {
 			panicked = true
 		}
 	}()
 	s := &Session{}
-	b, q = s.extractShmMetadata(body)
-	return
+	b, q, err := s.extractShmMetadata(body)
+	return b, q, err != nil, false
 }
 
 func c12CodecCases(r *vrand, n int, id *int, out *vout) {
@@ -431,14 +448,20 @@ func c12CodecCases(r *vrand, n int, id *int, out *vout) {
 		if lq >= 65536 || lb >= 65536 {
 			feat = append(feat, "u16-truncation")
 		}
-		eb, eq, pan := c12Extract(body)
+		eb, eq, bad, pan := c12Extract(body)
 		c := c12Case{ID: *id, Kind: "codec", Ver: int(ver), Ty: int(ty), Q: c12Ints(q), B: c12Ints(b), Bytes: c12Ints(data),
-			Body: c12Ints(body), Panic: pan, ExtB: c12Ints([]byte(eb)), ExtQ: c12Ints([]byte(eq)), Feat: feat}
+			Body: c12Ints(body), ExtErr: bad, Panic: pan, ExtB: c12Ints([]byte(eb)), ExtQ: c12Ints([]byte(eq)), Feat: feat}
 		// oracle (independent of the model): an untouched event must give back the two paths
-		if len(feat) == 0 && (pan || eb != string(b) || eq != string(q)) {
+		if pan { // a malformed body must be refused with an error, never crash the handshake
+			c.Oracle = append(c.Oracle, "C12:extract-metadata-panics")
+		}
+		if bad {
+			c.Feat = append(c.Feat, "extract-error")
+		}
+		if len(feat) == 0 && (pan || bad || eb != string(b) || eq != string(q)) {
 			c.Oracle = append(c.Oracle, "C12:codec-roundtrip-fails")
 		}
-		if len(feat) == 1 && feat[0] == "u16-truncation" && (pan || eb != string(b) || eq != string(q)) {
+		if len(feat) == 1 && feat[0] == "u16-truncation" && (pan || bad || eb != string(b) || eq != string(q)) {
 			c.Feat = append(c.Feat, "u16-truncation-observed")
 		}
 		if pan {
@@ -463,6 +486,17 @@ type c12PeerSpec struct {
 	removeB     bool // remove the buffer file again before the server runs (it must fail to map)
 	wantVer     int  // > 0: the property demands success with this (lower common) version
 	late        bool // the script is sent only after the real end's InitializeTimeout has passed
+	expect      int  // number of frames the protocol makes the real end write in this scenario
+}
+
+// scenarios that end by the real end's init timer get a short timeout, all others a generous one
+func (sp c12PeerSpec) timeout() time.Duration {
+	for _, k := range []string{"stall", "silent", "answers-v9", "late"} {
+		if strings.Contains(sp.name, k) {
+			return c12StallTimeout
+		}
+	}
+	return c12InitTimeout
 }
 
 func c12PeerSpecs() []c12PeerSpec {
@@ -476,40 +510,40 @@ func c12PeerSpecs() []c12PeerSpec {
 	}
 	return []c12PeerSpec{
 		// real client (memfd, unix) against a fake server
-		{name: "c-silent", client: true, mt: MemMapTypeMemFd, script: none},
-		{name: "c-close-at-once", client: true, mt: MemMapTypeMemFd, script: none, close: true},
-		{name: "c-stall-after-version", client: true, mt: MemMapTypeMemFd, script: S(exch(3))},
-		{name: "c-close-after-version", client: true, mt: MemMapTypeMemFd, script: S(exch(3)), close: true},
-		{name: "c-stall-after-ackready", client: true, mt: MemMapTypeMemFd, script: S(exch(3), h(3, typeAckReadyRecvFD))},
-		{name: "c-complete", wantVer: 3, client: true, mt: MemMapTypeMemFd, script: S(exch(3), h(3, typeAckReadyRecvFD), h(3, typeAckShareMemory))},
-		{name: "c-server-answers-v2", wantVer: 2, client: true, mt: MemMapTypeMemFd, script: S(exch(2))},
-		{name: "c-server-answers-v1", client: true, mt: MemMapTypeMemFd, script: S(exch(1))},
-		{name: "c-server-answers-v9", client: true, mt: MemMapTypeMemFd, script: S(exch(9))},
-		{name: "c-bad-magic", client: true, mt: MemMapTypeMemFd, script: S(c12Send{data: bad})},
-		{name: "c-version-0", client: true, mt: MemMapTypeMemFd, script: S(exch(0))},
-		{name: "c-type-out-of-range", client: true, mt: MemMapTypeMemFd, script: S(h(3, eventType(10)))},
-		{name: "c-unexpected-polling", client: true, mt: MemMapTypeMemFd, script: S(h(3, typePolling))},
-		{name: "c-ackshare-instead-of-ackready", client: true, mt: MemMapTypeMemFd, script: S(exch(3), h(3, typeAckShareMemory))},
-		{name: "c-ackready-twice", client: true, mt: MemMapTypeMemFd, script: S(exch(3), h(3, typeAckReadyRecvFD), h(3, typeAckReadyRecvFD))},
-		{name: "c-file-silent-server", wantVer: 2, client: true, mt: MemMapTypeDevShmFile, script: none},
+		{name: "c-silent", expect: 1, client: true, mt: MemMapTypeMemFd, script: none},
+		{name: "c-close-at-once", expect: 1, client: true, mt: MemMapTypeMemFd, script: none, close: true},
+		{name: "c-stall-after-version", expect: 2, client: true, mt: MemMapTypeMemFd, script: S(exch(3))},
+		{name: "c-close-after-version", expect: 2, client: true, mt: MemMapTypeMemFd, script: S(exch(3)), close: true},
+		{name: "c-stall-after-ackready", expect: 3, client: true, mt: MemMapTypeMemFd, script: S(exch(3), h(3, typeAckReadyRecvFD))},
+		{name: "c-complete", expect: 3, wantVer: 3, client: true, mt: MemMapTypeMemFd, script: S(exch(3), h(3, typeAckReadyRecvFD), h(3, typeAckShareMemory))},
+		{name: "c-server-answers-v2", expect: 2, wantVer: 2, client: true, mt: MemMapTypeMemFd, script: S(exch(2))},
+		{name: "c-server-answers-v1", expect: 1, client: true, mt: MemMapTypeMemFd, script: S(exch(1))},
+		{name: "c-server-answers-v9", expect: 2, client: true, mt: MemMapTypeMemFd, script: S(exch(9))},
+		{name: "c-bad-magic", expect: 1, client: true, mt: MemMapTypeMemFd, script: S(c12Send{data: bad})},
+		{name: "c-version-0", expect: 1, client: true, mt: MemMapTypeMemFd, script: S(exch(0))},
+		{name: "c-type-out-of-range", expect: 1, client: true, mt: MemMapTypeMemFd, script: S(h(3, eventType(10)))},
+		{name: "c-unexpected-polling", expect: 1, client: true, mt: MemMapTypeMemFd, script: S(h(3, typePolling))},
+		{name: "c-ackshare-instead-of-ackready", expect: 2, client: true, mt: MemMapTypeMemFd, script: S(exch(3), h(3, typeAckShareMemory))},
+		{name: "c-ackready-twice", expect: 3, client: true, mt: MemMapTypeMemFd, script: S(exch(3), h(3, typeAckReadyRecvFD), h(3, typeAckReadyRecvFD))},
+		{name: "c-file-silent-server", expect: 1, wantVer: 2, client: true, mt: MemMapTypeDevShmFile, script: none},
 		// real server against a fake client
 		{name: "s-silent", script: none},
 		{name: "s-close-at-once", script: none, close: true},
-		{name: "s-stall-after-version", script: S(exch(3))},
-		{name: "s-close-after-version", script: S(exch(3)), close: true},
-		{name: "s-stall-before-fds", createMemfd: true, script: func(q, b string, bf, qf int) []c12Send {
+		{name: "s-stall-after-version", expect: 1, script: S(exch(3))},
+		{name: "s-close-after-version", expect: 1, script: S(exch(3)), close: true},
+		{name: "s-stall-before-fds", expect: 2, createMemfd: true, script: func(q, b string, bf, qf int) []c12Send {
 			return []c12Send{exch(3), {data: c12Meta(3, typeShareMemoryByMemfd, q, b)}}
 		}},
-		{name: "s-close-before-fds", createMemfd: true, close: true, script: func(q, b string, bf, qf int) []c12Send {
+		{name: "s-close-before-fds", expect: 2, createMemfd: true, close: true, script: func(q, b string, bf, qf int) []c12Send {
 			return []c12Send{exch(3), {data: c12Meta(3, typeShareMemoryByMemfd, q, b)}}
 		}},
-		{name: "s-memfd-complete", wantVer: 3, createMemfd: true, script: func(q, b string, bf, qf int) []c12Send {
+		{name: "s-memfd-complete", expect: 3, wantVer: 3, createMemfd: true, script: func(q, b string, bf, qf int) []c12Send {
 			return []c12Send{exch(3), {data: c12Meta(3, typeShareMemoryByMemfd, q, b)}, {fds: []int{bf, qf}}}
 		}},
-		{name: "s-bytes-instead-of-fds", createMemfd: true, script: func(q, b string, bf, qf int) []c12Send {
+		{name: "s-bytes-instead-of-fds", expect: 2, createMemfd: true, script: func(q, b string, bf, qf int) []c12Send {
 			return []c12Send{exch(3), {data: c12Meta(3, typeShareMemoryByMemfd, q, b)}, h(3, typePolling)}
 		}},
-		{name: "s-one-fd-only", createMemfd: true, script: func(q, b string, bf, qf int) []c12Send {
+		{name: "s-one-fd-only", expect: 2, createMemfd: true, script: func(q, b string, bf, qf int) []c12Send {
 			return []c12Send{exch(3), {data: c12Meta(3, typeShareMemoryByMemfd, q, b)}, {fds: []int{bf}}}
 		}},
 		{name: "s-v2-file-complete", wantVer: 2, createFile: true, script: func(q, b string, bf, qf int) []c12Send {
@@ -521,17 +555,21 @@ func c12PeerSpecs() []c12PeerSpec {
 		{name: "s-v2-buffer-missing", createFile: true, removeB: true, script: func(q, b string, bf, qf int) []c12Send {
 			return []c12Send{{data: c12Meta(2, typeShareMemoryByFilePath, q, b)}}
 		}},
-		{name: "s-v3-file-complete", wantVer: 3, createFile: true, script: func(q, b string, bf, qf int) []c12Send {
+		{name: "s-v3-file-complete", expect: 2, wantVer: 3, createFile: true, script: func(q, b string, bf, qf int) []c12Send {
 			return []c12Send{exch(3), {data: c12Meta(3, typeShareMemoryByFilePath, q, b)}}
 		}},
 		// regression for C12_no_residue (late peer): valid V2 metadata that arrives after the server's timeout
 		{name: "s-late-metadata-after-timeout", createFile: true, late: true, script: func(q, b string, bf, qf int) []c12Send {
-			return []c12Send{{data: c12Meta(2, typeShareMemoryByFilePath, q, b), delay: c12InitTimeout + 400*time.Millisecond}}
+			return []c12Send{{data: c12Meta(2, typeShareMemoryByFilePath, q, b), delay: c12StallTimeout + 400*time.Millisecond}}
 		}},
+		// malformed metadata inside the handshake (bounds checks of the readers): an error, never a crash
+		{name: "s-v2-short-body", script: S(c12Send{data: append(c12Hdr(headerSize+1, 2, typeShareMemoryByFilePath), 7)})},
+		{name: "s-v2-length-below-header", script: S(c12Send{data: c12Hdr(4, 2, typeShareMemoryByFilePath)})},
+		{name: "s-v3-memfd-short-body", expect: 1, script: S(exch(3), c12Send{data: append(c12Hdr(headerSize+3, 3, typeShareMemoryByMemfd), 0, 9, 65)})},
 		{name: "s-version-4", script: S(exch(4))},
 		{name: "s-v2-with-exchange-type", script: S(exch(2))},
 		{name: "s-v3-with-file-type-first", script: S(h(3, typeShareMemoryByFilePath))},
-		{name: "s-unexpected-after-version", script: S(exch(3), h(3, typeAckShareMemory))},
+		{name: "s-unexpected-after-version", expect: 1, script: S(exch(3), h(3, typeAckShareMemory))},
 		{name: "s-bad-magic", script: S(c12Send{data: bad})},
 		{name: "s-version-0", script: S(exch(0))},
 	}
@@ -549,12 +587,13 @@ func c12ToFrames(ss []c12Send) []c12Frame {
 	return r
 }
 
-const c12InitTimeout = 700 * time.Millisecond
+const c12InitTimeout = 6 * time.Second          // scenarios that are not meant to time out
+const c12StallTimeout = 1200 * time.Millisecond // scenarios that end by the init timer
 const c12Slack = 4 * time.Second
 
 func c12RunPeer(id int, sp c12PeerSpec) c12Case {
 	c := c12Case{ID: id, Kind: "peer", Name: sp.name, Client: sp.client, MT: int(sp.mt), Unix: true, Close: sp.close, Late: sp.late,
-		Timeout: int64(c12InitTimeout / time.Millisecond), Frames: []c12Frame{}, Script: []c12Frame{}}
+		Timeout: int64(sp.timeout() / time.Millisecond), Frames: []c12Frame{}, Script: []c12Frame{}}
 	fail := func(msg string) c12Case {
 		c.Err = "harness: " + msg
 		c.Kind = "broken"
@@ -564,7 +603,7 @@ func c12RunPeer(id int, sp c12PeerSpec) c12Case {
 	if err != nil {
 		return fail(err.Error())
 	}
-	conf := c12Conf(id, sp.mt, c12InitTimeout)
+	conf := c12Conf(id, sp.mt, sp.timeout())
 	c.Q, c.B = c12Ints([]byte(conf.QueuePath)), c12Ints([]byte(conf.ShareMemoryPathPrefix+bufferPathSuffix))
 	qpath, bpath := conf.QueuePath, conf.ShareMemoryPathPrefix+bufferPathSuffix
 	var real, fake net.Conn
@@ -608,7 +647,7 @@ func c12RunPeer(id int, sp c12PeerSpec) c12Case {
 	c.Script = c12ToFrames(script)
 	hold := make(chan struct{})
 	done := make(chan []c12Frame, 1)
-	go c12FakePeer(fake.(*net.UnixConn), !sp.client, script, sp.close, hold, done)
+	go c12FakePeer(fake.(*net.UnixConn), !sp.client, script, sp.expect, sp.close, hold, done)
 	t0 := time.Now()
 	var sess *Session
 	if sp.client {
@@ -631,7 +670,7 @@ func c12RunPeer(id int, sp c12PeerSpec) c12Case {
 		if fr != nil {
 			c.Frames = fr
 		}
-	case <-time.After(6 * time.Second):
+	case <-time.After(30 * time.Second):
 		c.Oracle = append(c.Oracle, "harness: scripted peer did not finish")
 	}
 	if sess != nil {
@@ -662,7 +701,7 @@ func c12RunPeer(id int, sp c12PeerSpec) c12Case {
 		c.Oracle = append(c.Oracle, "C12:version-not-the-lower-common-one")
 	}
 	// oracle: an error comes no later than the timeout (generous slack)
-	if err != nil && el > c12InitTimeout+c12Slack {
+	if err != nil && el > sp.timeout()+c12Slack {
 		c.Oracle = append(c.Oracle, "C12:error-later-than-initialize-timeout")
 	}
 	// oracle: an error leaves nothing of the session's own behind.  The harness's own objects are
@@ -874,7 +913,7 @@ func c12Child() {
 	}
 	conf := DefaultConfig()
 	conf.LogOutput = io.Discard
-	conf.InitializeTimeout = 3 * time.Second
+	conf.InitializeTimeout = 8 * time.Second
 	s, err := Server(conn, conf)
 	if err != nil {
 		fmt.Println("ERR server " + err.Error())
@@ -966,7 +1005,7 @@ func c12RunXproc(id int, mt MemMapType) c12Case {
 		c.Kind, c.Err = "broken", "harness: dial: "+err.Error()
 		return c
 	}
-	conf := c12Conf(id, mt, 3*time.Second)
+	conf := c12Conf(id, mt, 8*time.Second)
 	c.Q, c.B = c12Ints([]byte(conf.QueuePath)), c12Ints([]byte(conf.ShareMemoryPathPrefix+bufferPathSuffix))
 	cs, cerr := newSession(conf, conn, true)
 	c.CClass = c12Class(cerr)
@@ -1023,7 +1062,7 @@ func c12RunCensus(id int, client bool) c12Case {
 		name = "census-stalled-client-peer"
 	}
 	c := c12Case{ID: id, Kind: "census", Name: name, Client: client, MT: int(MemMapTypeMemFd), Unix: true,
-		Timeout: int64(c12InitTimeout / time.Millisecond), Census: map[string]int{}}
+		Timeout: int64(c12StallTimeout / time.Millisecond), Census: map[string]int{}}
 	cli, srv, err := c12Pair(id, "unix")
 	if err != nil {
 		c.Kind, c.Err = "broken", "harness: "+err.Error()
@@ -1038,7 +1077,7 @@ func c12RunCensus(id int, client bool) c12Case {
 	c.Census["blocked_readers_before"] = c12BlockedReaders()
 	c.Census["socket_fds_before"] = c12FdLinks(inode)
 	c.Census["goroutines_before"] = runtime.NumGoroutine()
-	conf := c12Conf(id, MemMapTypeMemFd, c12InitTimeout)
+	conf := c12Conf(id, MemMapTypeMemFd, c12StallTimeout)
 	t0 := time.Now()
 	sess, err := newSession(conf, real, client)
 	el := time.Since(t0)
@@ -1062,7 +1101,7 @@ func c12RunCensus(id int, client bool) c12Case {
 	if err == nil {
 		c.Oracle = append(c.Oracle, "harness: the stalled peer scenario did not fail")
 	} else {
-		if el > c12InitTimeout+c12Slack {
+		if el > c12StallTimeout+c12Slack {
 			c.Oracle = append(c.Oracle, "C12:error-later-than-initialize-timeout")
 		}
 		leakG := c.Census["blocked_readers_after_gc"] > c.Census["blocked_readers_before"]
@@ -1094,7 +1133,284 @@ func c12RunCensus(id int, client bool) c12Case {
 	return c
 }
 
+// ---- a failed handshake next to an established sibling session, and before a new establishment ----
+// All sessions of one client process share ONE buffer manager per buffer path (process-wide table,
+// reference counted); only the queue is per session.  A handshake that fails must drop exactly its own
+// reference: (a) an established sibling A on the same buffer path keeps its memory on both ends and
+// keeps working; (b) afterwards nothing stale is left in the table and a new establishment on the same
+// path really maps memory.  Runs in a process of its own: when the property is violated the buffer
+// memory is gone and any access would kill the harness, so every access is preceded by a look at
+// /proc/self/maps and the process exits as soon as a violation is recorded.
+func c12BufRef(path string) (ref int, present bool) {
+	bufferManagers.Lock()
+	defer bufferManagers.Unlock()
+	if bm, ok := bufferManagers.bms[path]; ok {
+		return int(bm.refCount), true
+	}
+	return 0, false
+}
+
+func c12Echo(ss *Session) {
+	for {
+		st, err := ss.AcceptStream()
+		if err != nil {
+			return
+		}
+		go func() {
+			for {
+				b, err := st.BufferReader().ReadBytes(32)
+				if err != nil {
+					return
+				}
+				st.BufferWriter().WriteBytes(b)
+				st.Flush(false)
+				st.BufferReader().ReleasePreviousRead()
+			}
+		}()
+	}
+}
+
+func c12RoundTrip(cs *Session, tag byte) error {
+	st, err := cs.OpenStream()
+	if err != nil {
+		return err
+	}
+	defer st.Close()
+	msg := make([]byte, 32)
+	for i := range msg {
+		msg[i] = tag + byte(i)
+	}
+	st.SetDeadline(time.Now().Add(5 * time.Second))
+	if _, err := st.BufferWriter().WriteBytes(msg); err != nil {
+		return err
+	}
+	if err := st.Flush(false); err != nil {
+		return err
+	}
+	b, err := st.BufferReader().ReadBytes(32)
+	if err != nil {
+		return err
+	}
+	if string(b) != string(msg) {
+		return fmt.Errorf("echo differs")
+	}
+	if cs.stats.fallbackWriteCount != 0 {
+		return fmt.Errorf("the data went through the socket, not through shared memory")
+	}
+	return nil
+}
+
+func c12Establish(id int, tag string, conf *Config) (cs, ss *Session, err error) {
+	cli, srv, err := c12Pair(id, "unix")
+	if err != nil {
+		return nil, nil, err
+	}
+	_ = tag
+	var serr error
+	done := make(chan struct{})
+	go func() {
+		ss, serr = Server(srv, c12Conf(id, MemMapTypeDevShmFile, 8*time.Second))
+		close(done)
+	}()
+	cs, err = newSession(conf, cli, true)
+	<-done
+	if err == nil {
+		err = serr
+	}
+	return
+}
+
+// a client establishment on [conf] that fails: memfd -> the peer answers the version and stalls
+// (timeout); file/V2 -> the peer is already gone when the client announces its memory (EPIPE)
+func c12FailingSibling(id int, conf *Config) error {
+	cli, srv, err := c12Pair(id, "unix")
+	if err != nil {
+		return fmt.Errorf("harness: %v", err)
+	}
+	if conf.MemMapType == MemMapTypeDevShmFile {
+		srv.Close()
+		time.Sleep(100 * time.Millisecond)
+	} else {
+		go func() {
+			buf := make([]byte, 64)
+			srv.SetReadDeadline(time.Now().Add(2 * time.Second))
+			srv.Read(buf)
+			srv.Write(c12Hdr(headerSize, 3, typeExchangeProtoVersion))
+			time.Sleep(2 * time.Second)
+			srv.Close()
+		}()
+	}
+	s, err := newSession(conf, cli, true)
+	cli.Close()
+	if err == nil {
+		s.Close()
+		return fmt.Errorf("harness: the sibling establishment did not fail")
+	}
+	return nil
+}
+
+func c12RunSibling(id int, mt MemMapType, partB bool, out *vout) {
+	c := c12Case{ID: id, Kind: "sibling", Name: fmt.Sprintf("failed-handshake-next-to-established-sibling-mt%d", mt), MT: int(mt), Unix: true, Census: map[string]int{}}
+	finish := func() {
+		out.emit(c)
+		out.close()
+		os.Exit(0) // the buffer memory may be gone: do not run any cleanup that would touch it
+	}
+	prefix := c12Prefix(id)
+	bufPath := prefix + bufferPathSuffix
+	bufName := fmt.Sprintf("vf12_%d_%d%s", os.Getpid(), id, bufferPathSuffix)
+	if partB {
+		c.Name = fmt.Sprintf("establishment-after-failed-handshake-mt%d", mt)
+	}
+	var ref int
+	var present bool
+	if !partB {
+		confA := c12Conf(id, mt, 8*time.Second)
+		confA.QueuePath = prefix + "_queue_0"
+		csA, ssA, err := c12Establish(id, "a", confA)
+		if err != nil {
+			c.Kind, c.Err = "broken", "harness: establish A: "+err.Error()
+			finish()
+		}
+		go c12Echo(ssA)
+		if err := c12RoundTrip(csA, 1); err != nil {
+			c.Kind, c.Err = "broken", "harness: A round trip: "+err.Error()
+			finish()
+		}
+		c.Census["ref_before"], _ = c12BufRef(bufPath)
+		c.Census["maps_before"] = c12MapsLines(bufName)
+		// (a) the sibling B fails its handshake
+		confB := c12Conf(id, mt, 500*time.Millisecond)
+		confB.QueuePath = prefix + "_queue_1"
+		if err := c12FailingSibling(id+500, confB); err != nil {
+			c.Kind, c.Err = "broken", err.Error()
+			finish()
+		}
+		ref, present = c12BufRef(bufPath)
+		c.Census["ref_after_failed_sibling"] = ref
+		c.Census["maps_after_failed_sibling"] = c12MapsLines(bufName)
+		fileGone := false
+		if mt == MemMapTypeDevShmFile {
+			_, e := os.Stat(bufPath)
+			fileGone = e != nil
+		}
+		if !present || ref != c.Census["ref_before"] || c.Census["maps_after_failed_sibling"] < c.Census["maps_before"] || fileGone {
+			c.Oracle = append(c.Oracle, "C12:failed-handshake-releases-sibling-session-memory")
+			c.Feat = append(c.Feat, "sibling-memory-gone")
+			finish()
+		}
+		if err := c12RoundTrip(csA, 40); err != nil {
+			c.Oracle = append(c.Oracle, "C12:failed-handshake-releases-sibling-session-memory")
+			c.Err = "A after the failed sibling: " + err.Error()
+			finish()
+		}
+		c.Feat = append(c.Feat, "sibling-still-works")
+		csA.Close()
+		ssA.Close()
+		c12WaitGone(id, 4*time.Second)
+		out.emit(c)
+		out.close()
+		return
+	}
+	// (b) a failed handshake alone; then a new establishment on the same path
+	confC := c12Conf(id, mt, 500*time.Millisecond)
+	confC.QueuePath = prefix + "_queue_2"
+	if err := c12FailingSibling(id+600, confC); err != nil {
+		c.Kind, c.Err = "broken", err.Error()
+		finish()
+	}
+	ref, present = c12BufRef(bufPath)
+	c.Census["ref_after_failed_alone"] = ref
+	if present {
+		c.Oracle = append(c.Oracle, "C12:failed-handshake-leaves-stale-registry-entry")
+		finish()
+	}
+	if r := c12Residue(id, ""); len(r) > 0 {
+		c.Residue = r
+		for _, x := range r {
+			if sig := c12ResidueSig(x, false); sig != "" {
+				c.Oracle = append(c.Oracle, sig)
+			}
+		}
+	}
+	confD := c12Conf(id, mt, 8*time.Second)
+	confD.QueuePath = prefix + "_queue_3"
+	csD, ssD, err := c12Establish(id+700, "d", confD)
+	if err != nil {
+		c.Oracle = append(c.Oracle, "C12:establishment-after-failed-handshake-fails")
+		c.Err = err.Error()
+		finish()
+	}
+	c.Census["maps_new_establishment"] = c12MapsLines(bufName)
+	if c.Census["maps_new_establishment"] == 0 {
+		c.Oracle = append(c.Oracle, "C12:establishment-after-failed-handshake-has-no-mapped-memory")
+		finish()
+	}
+	go c12Echo(ssD)
+	if err := c12RoundTrip(csD, 80); err != nil {
+		c.Oracle = append(c.Oracle, "C12:establishment-after-failed-handshake-has-no-mapped-memory")
+		c.Err = "D: " + err.Error()
+		finish()
+	}
+	c.Feat = append(c.Feat, "re-establishment-works")
+	csD.Close()
+	ssD.Close()
+	c12WaitGone(id, 4*time.Second)
+	out.emit(c)
+	out.close()
+}
+
+// run the sibling scenario in its own process and relay its verdict
+func c12Isolated(id int, mt MemMapType, partB bool) c12Case {
+	tmp := filepath.Join(c12Scratch, fmt.Sprintf("iso%d.jsonl", id))
+	os.Remove(tmp)
+	cmd := exec.Command(os.Args[0], "-test.run", "^TestVerif_C12$")
+	cmd.Env = append(os.Environ(), "VERIF_C12_CHILD=sibling", "VERIF_OUT="+tmp, fmt.Sprintf("VERIF_C12_SPEC=%d|%d|%d", id, mt, map[bool]int{false: 0, true: 1}[partB]))
+	outb, _ := cmd.CombinedOutput()
+	defer os.Remove(tmp)
+	defer func() {
+		if cmd.Process != nil {
+			if m, _ := filepath.Glob(fmt.Sprintf("/dev/shm/vf12_%d_*", cmd.Process.Pid)); len(m) > 0 {
+				for _, f := range m {
+					os.Remove(f)
+				}
+			}
+		}
+	}()
+	if b, err := os.ReadFile(tmp); err == nil {
+		var c c12Case
+		if json.Unmarshal([]byte(strings.TrimSpace(string(b))), &c) == nil && c.Name != "" {
+			c.Feat = append(c.Feat, "own-process")
+			return c
+		}
+	}
+	out := string(outb)
+	if len(out) > 1500 {
+		out = out[:700] + " ... " + out[len(out)-700:]
+	}
+	c := c12Case{ID: id, Kind: "sibling", Name: fmt.Sprintf("failed-handshake-next-to-established-sibling-mt%d", mt), MT: int(mt), Unix: true, Err: out}
+	if partB {
+		c.Name = fmt.Sprintf("establishment-after-failed-handshake-mt%d", mt)
+	}
+	if strings.Contains(out, "SIGSEGV") || strings.Contains(out, "unexpected fault address") {
+		c.Oracle = append(c.Oracle, "C12:failed-handshake-releases-sibling-session-memory")
+		c.Feat = append(c.Feat, "own-process", "child-crashed-sigsegv")
+	} else {
+		c.Kind = "broken"
+		c.Err = "harness: isolated scenario produced no result: " + out
+	}
+	return c
+}
+
 func TestVerif_C12(t *testing.T) {
+	if os.Getenv("VERIF_C12_CHILD") == "sibling" {
+		var id, mt int
+		var part int
+		fmt.Sscanf(os.Getenv("VERIF_C12_SPEC"), "%d|%d|%d", &id, &mt, &part)
+		c12Scratch = os.Getenv("VERIF_SCRATCH")
+		c12RunSibling(id, MemMapType(mt), part == 1, vopenOut(t))
+		return
+	}
 	if os.Getenv("VERIF_C12_CHILD") != "" {
 		c12Child()
 		return
@@ -1167,6 +1483,17 @@ func TestVerif_C12(t *testing.T) {
 			go func() {
 				defer wg.Done()
 				emit(c12RunXproc(myid, mt))
+			}()
+			sid, rid := id, id+1
+			id += 2
+			wg.Add(2)
+			go func() {
+				defer wg.Done()
+				emit(c12Isolated(sid, mt, false))
+			}()
+			go func() {
+				defer wg.Done()
+				emit(c12Isolated(rid, mt, true))
 			}()
 		}
 		wg.Wait()
